@@ -47,8 +47,20 @@ func (c *kase) keys() []string {
 
 const panicMark = "\x00panic"
 
+// lookupAlternate (set by the search leg "period"): every pass over the keys runs in the opposite direction of the
+// pass before it, so that after a batch of unobserved membership changes the keys are asked newest first — whatever
+// the ring remembers of its most recent answers is asked again before a later lookup can displace it.
+var lookupAlternate, lookupFlip bool
+
 func lookupAll(ring *consistent.Consistent, keys []string, out []string) {
-	for i, k := range keys {
+	rev := lookupAlternate && lookupFlip
+	lookupFlip = !lookupFlip
+	for j := range keys {
+		i := j
+		if rev {
+			i = len(keys) - 1 - j
+		}
+		k := keys[i]
 		var got string
 		if p := hxlib.Guard(func() { got = ring.GetNodeBy(k) }); p != "" {
 			got = panicMark
@@ -72,7 +84,7 @@ type failure struct {
 
 type stats struct {
 	moved, movedAdd, movedRemove, movedBatch, quiet, lookups, emptyPanics int
-	addExisting, removeAbsent                          int
+	addExisting, removeAbsent, batchSkipped                               int
 }
 
 // runCase runs the history on the real code, applies the oracle, and (if r != nil) records the protocol lines.
@@ -80,6 +92,7 @@ func runCase(r *hxlib.Run, c *kase) ([]failure, stats) {
 	var fails []failure
 	var st stats
 	keys := c.keys()
+	lookupFlip = false
 	ring := consistent.New()
 	members := map[string]bool{} // the oracle's own idea of the membership
 	before := make([]string, len(keys))
@@ -153,7 +166,18 @@ func runCase(r *hxlib.Run, c *kase) ([]failure, stats) {
 				// adds or away from the member it removes, so over the batch a key that went from b to a needs
 				// a to have been added or b to have been removed in the batch
 				st.movedBatch++
-				if !added[a] && !removed[b] {
+				// (sound only when no member was both added and removed inside the batch: a member that shares a ring
+				// point with b takes the point over when it is added and takes it away with it when it leaves, so the
+				// key legitimately goes b -> x -> a with every single step within the property)
+				passThrough := false
+				for x := range added {
+					if removed[x] {
+						passThrough = true
+					}
+				}
+				if passThrough {
+					st.batchSkipped++
+				} else if !added[a] && !removed[b] {
 					to := a
 					if a == panicMark {
 						to = "<panic>"
@@ -252,6 +276,7 @@ func one(r *hxlib.Run, c *kase) {
 	r.CountN("keys-moved-on-remove", st.movedRemove)
 	r.CountN("lookup-panics-on-empty-ring", st.emptyPanics)
 	r.CountN("keys-moved-over-a-batch", st.movedBatch)
+	r.CountN("keys-moved-over-a-batch-not-judged:a-member-was-added-and-removed-in-it", st.batchSkipped)
 	r.CountN("changes-without-a-lookup-after", st.quiet)
 	r.CountN("add-of-existing-member", st.addExisting)
 	r.CountN("remove-of-non-member", st.removeAbsent)
@@ -436,6 +461,13 @@ func main() {
 	defer r.Finish()
 	log.SetOutput(io.Discard)
 	if r.Replay != "" {
+		var sc scase
+		r.LoadReplay(&sc)
+		if sc.Leg != "" { // a case of a search leg (search.go): its history is regenerated from the parameters
+			runSearch(r, sc)
+			r.Sample(sc)
+			return
+		}
 		var c kase
 		r.LoadReplay(&c)
 		one(r, &c)
@@ -504,5 +536,12 @@ func main() {
 			c.Ops = append(c.Ops, op{Op: "remove", Name: "srv" + strconv.Itoa(j)})
 		}
 		one(r, c)
+	}
+	if r.Search {
+		if r.Failed() {
+			r.Note("search legs not run: the thorough generators already produced a failing input")
+		} else {
+			searchLegs(r)
+		}
 	}
 }
